@@ -105,3 +105,59 @@ func TestDocxTablesBetweenParagraphs(t *testing.T) {
 		last = i
 	}
 }
+
+// C16 / R16.9: paragraphs and tables inside a block-level content control (<w:sdt><w:sdtContent>, used by Word for
+// tables of contents, cover pages and template placeholders) or a custom XML block were not decoded: the body struct
+// collects only direct <w:p>/<w:tbl> children.
+func TestDocxBlockContentControl(t *testing.T) {
+	para := func(s string) string { return `<w:p><w:r><w:t>` + s + `</w:t></w:r></w:p>` }
+	p := docxOf(t, para("alpha")+
+		`<w:sdt><w:sdtPr><w:alias w:val="x"/></w:sdtPr><w:sdtContent>`+para("beta")+
+		`<w:tbl><w:tr><w:tc>`+para("cell")+`</w:tc></w:tr></w:tbl>`+para("gamma")+`</w:sdtContent></w:sdt>`+
+		`<w:customXml w:element="e">`+para("delta")+`</w:customXml>`+para("omega"))
+	txt, _, err := tabula.Open(p).Text()
+	if err != nil {
+		t.Fatal(err)
+	}
+	last := -1
+	for _, w := range []string{"alpha", "beta", "cell", "gamma", "delta", "omega"} {
+		i := strings.Index(txt, w)
+		if i < 0 || strings.Count(txt, w) != 1 {
+			t.Errorf("%q returned %d times in %q, want once", w, strings.Count(txt, w), txt)
+			continue
+		}
+		if i < last {
+			t.Errorf("%q out of document order in %q", w, txt)
+		}
+		last = i
+	}
+}
+
+// C16 / R16.9: the table structs decode only direct <w:tr>, <w:tc> and <w:p> children: a table nested in a cell, and
+// rows, cells or cell content wrapped in a content control (repeating sections, form fields) lost their text.
+func TestDocxTableContentModel(t *testing.T) {
+	para := func(s string) string { return `<w:p><w:r><w:t>` + s + `</w:t></w:r></w:p>` }
+	cell := func(s string) string { return `<w:tc>` + s + `</w:tc>` }
+	sdt := func(s string) string { return `<w:sdt><w:sdtPr/><w:sdtContent>` + s + `</w:sdtContent></w:sdt>` }
+	p := docxOf(t, `<w:tbl>`+
+		`<w:tr>`+cell(para("plain"))+cell(sdt(para("incontrol")))+`</w:tr>`+
+		`<w:tr>`+cell(para("outer")+`<w:tbl><w:tr>`+cell(para("nested"))+`</w:tr></w:tbl>`+para("after"))+sdt(cell(para("sdtcell")))+`</w:tr>`+
+		sdt(`<w:tr>`+cell(para("sdtrow"))+cell(para("lastcell"))+`</w:tr>`)+
+		`</w:tbl>`)
+	txt, _, err := tabula.Open(p).Text()
+	if err != nil {
+		t.Fatal(err)
+	}
+	last := -1
+	for _, w := range []string{"plain", "incontrol", "outer", "nested", "after", "sdtcell", "sdtrow", "lastcell"} {
+		i := strings.Index(txt, w)
+		if i < 0 || strings.Count(txt, w) != 1 {
+			t.Errorf("%q returned %d times in %q, want once", w, strings.Count(txt, w), txt)
+			continue
+		}
+		if i < last {
+			t.Errorf("%q out of document order in %q", w, txt)
+		}
+		last = i
+	}
+}
